@@ -6,9 +6,22 @@ def read(p): return open(f"{SRC}/{p}").read()
 def fail(what): print(f"EXTRACT-FAIL {what}"); sys.exit(2)
 
 def matches_chars(src, fn):
-    m = re.search(r"pub const fn %s\(x: char\) -> bool \{\s*matches!\(\s*x,\s*(.*?)\)\s*\}" % fn, src, re.S)
+    """the character literals of the `matches!` in the body of `fn` (comments and layout are immaterial)"""
+    m = re.search(r"pub const fn %s\(\w+: char\) -> bool \{" % fn, src)
     if not m: fail(fn)
-    return re.findall(r"'(\\?.)'", m.group(1))
+    depth, j = 0, m.end() - 1
+    while True:
+        if src[j] == "{": depth += 1
+        elif src[j] == "}":
+            depth -= 1
+            if depth == 0: break
+        j += 1
+    body = re.sub(r"//[^\n]*", "", src[m.end():j])
+    m2 = re.search(r"matches!\(\s*\w+\s*,(.*)\)", body, re.S)
+    if not m2: fail(fn)
+    chars = re.findall(r"'(\\?.)'", m2.group(1))
+    if not chars or re.sub(r"'(\\?.)'|[\s|]", "", m2.group(1)): fail(fn + ": not a plain list of characters")
+    return chars
 
 lib = read("lib.rs")
 meta = matches_chars(lib, "is_meta_character")
